@@ -258,7 +258,8 @@ def run(ctx):
     # initial points: every draw
     for solver in ('NM', 'DE'):
         for dim in (1, 2):
-            for lo, hi in (([-1.0] * dim, [2.0] * dim), ([-3.0] * dim, [-0.5] * dim), ([0.0] * dim, [0.0] * dim), ([None] * dim, [5.0] * dim)):
+            for lo, hi in (([-1.0] * dim, [2.0] * dim), ([-3.0] * dim, [-0.5] * dim), ([0.0] * dim, [0.0] * dim), ([None] * dim, [5.0] * dim),
+                           ([0.0] * dim, [None] * dim), ([0.0, None][:dim], [None, 5.0][-dim:])):
                 if solver == 'DE' and dim == 2 and not ctx.thorough and lo[0] in (0.0,):
                     continue
                 items.append(('I', (solver, dim, 'random', (lo, hi))))
